@@ -1,10 +1,11 @@
 SPECIFICATION Spec
 CONSTANTS
   Classes <- AllClasses
-  Focuses = {"paths", "forward_dests", "hls_sessions", "hls_muxers", "rtsp_conns", "rtsp_sessions", "rtsps_conns", "rtsps_sessions", "rtmp_conns", "rtmps_conns", "srt_conns", "webrtc_sessions", "moq_sessions", "all"}
+  Focuses = {"paths", "forward_dests", "hls_sessions", "hls_muxers", "rtsp_conns", "rtsp_sessions", "rtsps_conns", "rtsps_sessions", "rtmp_conns", "rtmps_conns", "srt_conns", "webrtc_sessions", "moq_sessions", "all", "readers"}
   Counts = {1, 2}
   Filters = {"none", "type", "path"}
   L1Variant = "fixed"
+  ReaderSteps = {1, 11}
   TwoFocuses = {"paths", "forward_dests", "hls_sessions", "hls_muxers", "rtsp_sessions", "srt_conns", "all"}
 INVARIANT ModelSane
 INVARIANT EmitCases
